@@ -633,7 +633,10 @@ func (s *vHnswSys) observe(h []string) {
 		if s.cfg.Metric == Cosine && vIsZero(q) {
 			continue
 		}
-		for _, k := range []int{1, 2, -1} {
+		for _, k := range []int{1, 2, -1, 0} {
+			if k == 0 && qi != 0 {
+				continue // (k = 0, the other "return everything" form: with the first query)
+			}
 			s.c.Evaluations++
 			res, err := vRunVecQuery(s.idx, vVecQuery{Q: q, K: k})
 			if err != nil {
